@@ -353,7 +353,8 @@ def execute(run):
     dflt = defaults()
     rota = prmspace.PROCESSING_LEAVES + [('LAYERING_PRMS', 'gmm_kwargs', 'scores')] * 3 + \
         [('LAYERING_PRMS', 'gmm_kwargs', 'rescale_0_to_x'),
-         ('SLICING_PRMS', 'height_scale_kwargs', 'min_range')]
+         ('SLICING_PRMS', 'height_scale_kwargs', 'min_range'),
+         ('BASE_LVL_HEIGHT_PERC',), ('BASE_LVL_HEIGHT_PERC',)]
     focus = rota[run['index'] % len(rota)]
     classes = prmspace.LIVE_CLASSES.get(focus, prmspace.CLOUDY)
     sandbox = _sandbox()
